@@ -146,6 +146,11 @@ func genQR(r *rng, p Profile) Call {
 	if r.chance(0.02) {
 		c.I1 = 4 + r.intn(3) // undefined level: must fail cleanly
 	}
+	if r.chance(0.015) {
+		// undefined mode: panics today (a nil encoder function); whatever it does it must do the same
+		// alone and in company, and nothing may be left running behind the panic
+		c.I2 = 4 + r.intn(4)
+	}
 	n := r.length(p.MaxLen)
 	switch c.I2 {
 	case 1: // numeric
